@@ -68,6 +68,8 @@ def gen_cases(rng, tier):
             key = ['fmt', '{n}']
         cases.append({'kind': 'sort', 'rows': rows_enc(gen_rows(rng, nrows, cols)), 'key': key, 'reverse': rev,
                       'batch_size': bs, 'names': ['i'] + list(cols)})
+        if k in (0, 4) and rng.chance(0.5):
+            cases[-1]['lead'] = rows_enc([dict([('i', j)] + [(c_, rng.pick(['x', 'b', 'x1'])) for c_ in cols]) for j in range(rng.randint(1, 3))])
     # above the ordered store's 10240-entry cache (the result must not depend on fitting in it), both directions
     for big, rev in ([(10241, True)] if tier != 'thorough' else [(10241, True), (10241, False), (12000, True), (12000, False)]):
         cols = {'n': list(range(-50, 50))}
@@ -114,10 +116,14 @@ def step_of(case):
 def run_impl(case):
     rows = rows_dec(case['rows'])
     res = mk_resource('t', case['names'], rows, types=dict((n, 'any') for n in case['names']))
-    out = run_stream([res], [step_of(case)])
+    rs = [res]
+    if case.get('lead'):
+        # another resource sorted by the same step before this one, holding text in the key fields
+        rs = [mk_resource('lead', case['names'], rows_dec(case['lead']), types=dict((n, 'any') for n in case['names'])), res]
+    out = run_stream(rs, [step_of(case)])
     if 'error' in out:
         return {'error': out['error'], 'exc': out['exc']}
-    got = out['rows'][0]
+    got = out['rows'][-1]
     if case.get('big'):
         return {'order': [r['i'] for r in got], 'n': len(got)}
     return {'rows': rows_enc(got)}
